@@ -181,24 +181,25 @@ PENDING = {}
 
 # dimensions added after the seeded-change rounds (DESIGN.md sections 6 and 7): appended to the coverage text of each check
 EXTRA = {
- 'C01': ' Also: 2-D normalisation over noise patterns; chains of 1000 operations (binary, in-place, inverse, prod, interp) with the invariant at 10/100/1000 steps.',
- 'C02': ' Also: there-and-back chains of 10/100/1000 steps; a non-member result met by the BFS is reported and not expanded.',
- 'C03': ' Also: integer / single-precision group and algebra elements (all 4 + 24 integer rotations), clockwise 2-D unit twists, and every class conversion on objects with a history (mc/hist.py).',
- 'C04': ' Also: power moves **-2..3 in the lock-step graph, -q up to one rounding error compares equal, log/exp of both quaternion signs, SE3.Rx(t=)/Tx/Ty/Tz values, and every root state held by objects with a history.',
+ 'C10': ' One of the element tags of the pose classes is a drifted member (as ~30 compositions produce it, outside the constructors\' 100 eps band): indexing, slicing, iteration and pop must hand it on.',
+ 'C01': ' Also: 2-D normalisation over noise patterns; chains of 1000 operations (binary, in-place, inverse, prod, interp) with the invariant at 10/100/1000 steps. Angles as NumPy scalars of other widths / Python int; start poses just short of a half turn for interpolation.',
+ 'C02': ' Also: there-and-back chains of 10/100/1000 steps; a non-member result met by the BFS is reported and not expanded. The drifted intermediate of every chain is inverted and divided; nested powers inverted.',
+ 'C03': ' Also: integer / single-precision group and algebra elements (all 4 + 24 integer rotations), clockwise 2-D unit twists, and every class conversion on objects with a history (mc/hist.py). Sequences of values of mixed kinds (identity, translation, rotations, half turn) in every order of 2 and 3.',
+ 'C04': ' Also: power moves **-2..3 in the lock-step graph, -q up to one rounding error compares equal, log/exp of both quaternion signs, SE3.Rx(t=)/Tx/Ty/Tz values, and every root state held by objects with a history. prod() of N = 1..9 values in every representation; product states drifted by 27 / 81 compositions (members to 1e-14) through all conversions.',
  'C05': ' Also: integer / single-precision rotation matrices (complete over the 24 + 4 integer rotations) and extraction from objects with a history.',
- 'C06': ' Also: the rotation held as -q, binary and in-place operators in every length pairing before the point, multi-valued poses with a history.',
+ 'C06': ' Also: the rotation held as -q, binary and in-place operators in every length pairing before the point, multi-valued poses with a history. Tolerance is relative to the data magnitude with no unit floor (data down to 1e-6).',
  'C07': ' Also: argument arrays with a history (accepted unchecked before, changed in place after acceptance, accepted by another class).',
  'C08': ' Also: the same object on both sides of every operator.',
- 'C09': ' Also: every other per-value method, property and conversion (refuse loudly or return M per-value results), unary minus, the same object on both sides, nearly equal elements under == / !=, elements of mixed kinds, and every accessor on objects with a history.',
- 'C11': ' Also: integer-dtype poses against their float copies.',
- 'C12': ' Also: the identities on multi-valued operands (1xN, Nx1, NxN), UnitQuaternion receivers of exp/log, mixed-class dual quaternion products.',
- 'C13': ' Also: container forms and the check option of the vector / vex helpers, multi-valued ad(), Ad / jacob / ad on objects with a history.',
- 'C14': ' Also: whole-matrix noise (bottom row included), the N x 4 and check=False forms of the normalising constructor, container forms of angdiff.',
+ 'C09': ' Also: every other per-value method, property and conversion (refuse loudly or return M per-value results), unary minus, the same object on both sides, nearly equal elements under == / !=, elements of mixed kinds, and every accessor on objects with a history. Poses of mixed kinds x point.',
+ 'C11': ' Also: integer-dtype poses against their float copies. The shorter-arc request spelt as NumPy boolean and 1; start poses just short of a half turn.',
+ 'C12': ' Also: the identities on multi-valued operands (1xN, Nx1, NxN), UnitQuaternion receivers of exp/log, mixed-class dual quaternion products. Operands as single / half precision and integer arrays and lists of NumPy scalars; conjugate of unit dual quaternions.',
+ 'C13': ' Also: container forms and the check option of the vector / vex helpers, multi-valued ad(), Ad / jacob / ad on objects with a history. The linear identities with fully and partly symbolic vectors.',
+ 'C14': ' Also: whole-matrix noise (bottom row included), the N x 4 and check=False forms of the normalising constructor, container forms of angdiff. Values as single / half precision and integer arrays; clockwise planar twists.',
  'C15': ' Also: the unit of every angle accessor on multi-valued objects; Python int / NumPy integer / single-precision scalar angles.',
- 'C16': ' Also: simplify() preserves the value (all four classes, products, sequences, numeric poses).',
- 'C17': ' Also: printing / formatting calls, matrices carrying rounding residues, line-pair descriptors, interpreter-wide state (NumPy print options, error state, global RNG) as an invariant of every non-random call, and the answer of every descriptor before and after every other call.',
- 'C19': ' Also: 3 x N contains() with distinct columns, and the whole single-line family on lines with a history.',
- 'C20': ' Also: augmented assignments in the reject matrix, pose x spatial vector with poses that have a history.',
+ 'C16': ' Also: simplify() preserves the value (all four classes, products, sequences, numeric poses). Symbolic pose / pose.',
+ 'C17': ' Also: printing / formatting calls, matrices carrying rounding residues, line-pair descriptors, interpreter-wide state (NumPy print options, error state, global RNG) as an invariant of every non-random call, and the answer of every descriptor before and after every other call. Angles held in 0-d and 1-D arrays; the N x 4 constructor argument.',
+ 'C19': ' Also: 3 x N contains() with distinct columns, and the whole single-line family on lines with a history. Defining points as single / half precision and integer arrays.',
+ 'C20': ' Also: augmented assignments in the reject matrix, pose x spatial vector with poses that have a history. The reflected inertia products.',
 }
 for _k, _v in EXTRA.items():
     if _k in CHECKS:
